@@ -53,11 +53,20 @@ def native_step_replay(doc, base, wd, trace, nested, nb):
     if not exe:
         return False, 'cannot build native replay: ' + err, None
     flags = scalar(trace, 'wit_pre_flags')
+    env = dict(os.environ, ASAN_OPTIONS='detect_leaks=0')
     if flags is None:
-        return False, 'no pre-state in the trace', None
+        # no witness for this obligation: search from the pristine context under ASan/UBSan
+        args = [exe, 'reach', '6', '16'] + (['skiphist'] if nested else [])
+        try:
+            q = subprocess.run(args, capture_output=True, text=True, env=env, timeout=600, errors='replace')
+            out = (q.stdout + q.stderr).strip()
+            rep = q.returncode != 0
+            key = [l for l in out.splitlines() if 'ERROR: AddressSanitizer' in l or 'runtime error' in l or 'REPRODUCED' in l]
+            return rep, 'no pre-state in the trace; native search from the pristine context (6 steps, 2^16 answer patterns): ' + (' / '.join(key[:2]) if key else out[-300:]), {'cmd': ' '.join(args)}
+        except subprocess.TimeoutExpired:
+            return False, 'no pre-state in the trace; native search timed out', None
     cfg = hexbytes(trace, 'wit_pre_config', nb)
     hist = hexbytes(trace, 'wit_pre_history', nb)
-    env = dict(os.environ, ASAN_OPTIONS='detect_leaks=0')
     args = [exe, 'pre', str(flags), cfg, hist, '14'] + (['skiphist'] if nested else [])
     try:
         p = subprocess.run(args, capture_output=True, text=True, env=env, timeout=300, errors='replace')
